@@ -7,6 +7,7 @@ package main
 
 import (
 	"context"
+	"errors"
 	"fmt"
 	"sort"
 	"strings"
@@ -28,12 +29,14 @@ import (
 func main() { vlib.Run("C14", run) }
 
 func run(c *vlib.Ctx) {
-	c.Rule("ancestor tree depth<=4 fan-out<=6 over 7 names and 4 file contents (identical files and identical sub-directories are frequent); a and b are each derived by 0-8 edits {add file, add dir, add copy of an existing subtree, remove, change file content, replace dir by file, replace file by dir, empty a dir} at random depths; strata: clean (file/non-empty-dir clashes repaired by renaming AND link names suffixed with their depth, so neither known trigger can occur), shared (clashes repaired, plain names: identical subtrees at different depths), kind (a clash forced), selfsim (2 names, 2 contents, deep: a directory often equals its own parent's previous state), same (a==b built twice); both directions a->b and b->a plus Diff(x,x); every change list is also replayed on a model of the Editor's temporary store to compute the class features; distinct = FNV of both trees; non-trivial = the diff has >=3 changes of >=2 types with one at depth>=2")
+	c.Rule("ancestor tree depth<=4 fan-out<=6 over 7 names and 4 file contents (identical files and identical sub-directories are frequent); a and b are each derived by 0-8 edits {add file, add dir, add copy of an existing subtree, remove, change file content, replace dir by file, replace file by dir, empty a dir} at random depths; strata: clean (file/non-empty-dir clashes repaired by renaming AND link names suffixed with their depth, so neither known trigger can occur), shared (clashes repaired, plain names: identical subtrees at different depths), kind (a clash forced), selfsim (2 names, 2 contents, deep: a directory often equals its own parent's previous state), same (a==b built twice); both directions a->b and b->a plus Diff(x,x); every change list is also replayed on a model of the Editor's temporary store to compute the class features; fault (Get fails with a non-not-found error for 1-3 PRNG-chosen non-root blocks at depth 1-4, mostly on a changed path: Diff must return an error, or a change list that reproduces b on a healthy store); distinct = FNV of both trees (+ fault set); non-trivial = the diff has >=3 changes of >=2 types with one at depth>=2; fault stratum: a faulted block lies on a changed path at depth >= 2")
 	c.Cases("clean", c.N(1200, 12000), func(k *vlib.Case) { pairCase(k, "clean") })
 	c.Cases("shared", c.N(800, 8000), func(k *vlib.Case) { pairCase(k, "shared") })
 	c.Cases("kind", c.N(500, 5000), func(k *vlib.Case) { pairCase(k, "kind") })
 	c.Cases("selfsim", c.N(600, 5000), func(k *vlib.Case) { pairCase(k, "selfsim") })
 	c.Cases("same", c.N(100, 500), func(k *vlib.Case) { pairCase(k, "same") })
+	// read faults: Diff must report them, never return a partial change list
+	c.Cases("fault", c.N(800, 8000), faultCase)
 }
 
 // ---------------------------------------------------------------- tree model
@@ -688,13 +691,188 @@ func pairCase(k *vlib.Case, stratum string) {
 		}
 		k.C.Count("applied_ok", 1)
 		if len(kc) > 0 {
-			k.C.Count("clash_but_applied_ok", 1) // would show that the class trigger is wider than the defect
+			k.C.Count("clash_but_applied_ok", 1) // 0 before fix-diff-mod-on-data-change (the clash always failed); all of them after it
 		}
 		if !complete(ctx, dserv, res.Cid()) {
 			k.C.Count("result_dag_incomplete_in_store", 1)
 		}
 	}
 	if nontrivial {
+		k.Nontrivial()
+	}
+}
+
+// ---------------------------------------------------------------- read faults
+
+// faultyDAG fails Get for a chosen set of CIDs with a plain I/O-style error
+// (not a not-found) and counts how often that happened.
+type faultyDAG struct {
+	format.DAGService
+	bad  map[string]bool
+	hits []cid.Cid
+}
+
+var errInjected = errors.New("injected read fault")
+
+func (f *faultyDAG) Get(ctx context.Context, c cid.Cid) (format.Node, error) {
+	if f.bad[c.KeyString()] {
+		f.hits = append(f.hits, c)
+		return nil, errInjected
+	}
+	return f.DAGService.Get(ctx, c)
+}
+
+func (f *faultyDAG) GetMany(ctx context.Context, cs []cid.Cid) <-chan *format.NodeOption {
+	out := make(chan *format.NodeOption, len(cs))
+	for _, c := range cs {
+		nd, err := f.Get(ctx, c)
+		out <- &format.NodeOption{Node: nd, Err: err}
+	}
+	close(out)
+	return out
+}
+
+type pathNode struct {
+	t     *tn
+	depth int
+	path  string
+}
+
+// changedPairs lists the nodes Diff has to read: entries present in both
+// trees under the same name with different content, at every depth reached by
+// recursing through directories.
+func changedPairs(a, b *tn, depth int, prefix string, out *[]pathNode) {
+	for _, n := range a.names() {
+		x, y := a.kids[n], b.kids[n]
+		if y == nil || x.String() == y.String() {
+			continue
+		}
+		*out = append(*out, pathNode{x, depth, prefix + n + "(a)"}, pathNode{y, depth, prefix + n + "(b)"})
+		if x.dir && y.dir {
+			changedPairs(x, y, depth+1, prefix+n+"/", out)
+		}
+	}
+}
+
+func allNodes(t *tn, depth int, prefix string, out *[]pathNode) {
+	for _, n := range t.names() {
+		*out = append(*out, pathNode{t.kids[n], depth, prefix + n})
+		allNodes(t.kids[n], depth+1, prefix+n+"/", out)
+	}
+}
+
+func faultCase(k *vlib.Case) {
+	r := k.R
+	ctx := context.Background()
+	namePool = []string{"a", "b", "c", "d", "e", "f", "long-name.txt"}
+	contents = []string{"", "x", "y", "some longer file content"}
+	dirNum = 3 // deeper trees: the interesting faults are two or more levels down
+	anc := genTree(r, 0)
+	a, b := anc.clone(), anc.clone()
+	if r.Chance(3, 4) {
+		edit(k, r, a, "a", true)
+	}
+	edit(k, r, b, "b", true)
+	edit(k, r, b, "b", true)
+	k.Logf("a = %s", a)
+	k.Logf("b = %s", b)
+	bl := &built{nodes: map[string]format.Node{}, trees: map[string]*tn{}, v1: r.Bool()}
+	cidOf := map[*tn]cid.Cid{}
+	var reg func(t *tn) // CIDs of model nodes, by rebuilding each subtree (small trees)
+	reg = func(t *tn) {
+		cidOf[t] = bl.build(t).Cid()
+		for _, n := range t.names() {
+			reg(t.kids[n])
+		}
+	}
+	ra, rb := bl.build(a), bl.build(b)
+	reg(a)
+	reg(b)
+
+	var onPath, all []pathNode
+	changedPairs(a, b, 1, "", &onPath)
+	allNodes(a, 1, "", &all)
+	allNodes(b, 1, "", &all)
+	if len(all) == 0 {
+		return
+	}
+	bad := map[string]bool{}
+	maxDepthOnPath := 0
+	for i := r.Range(1, 3); i > 0; i-- {
+		var pn pathNode
+		if len(onPath) > 0 && r.Chance(3, 4) {
+			// prefer deep nodes on a changed path
+			pn = onPath[r.Intn(len(onPath))]
+			if q := onPath[r.Intn(len(onPath))]; q.depth > pn.depth {
+				pn = q
+			}
+		} else {
+			pn = all[r.Intn(len(all))]
+		}
+		c := cidOf[pn.t]
+		if c.Equals(ra.Cid()) || c.Equals(rb.Cid()) {
+			continue
+		}
+		bad[c.KeyString()] = true
+		k.Logf("fault: Get(%s) fails (node at depth %d, %s, dir=%v)", short(c), pn.depth, pn.path, pn.t.dir)
+	}
+	if len(bad) == 0 {
+		return
+	}
+	for _, pn := range onPath {
+		if bad[cidOf[pn.t].KeyString()] && pn.depth > maxDepthOnPath {
+			maxDepthOnPath = pn.depth
+		}
+	}
+
+	for dir := 0; dir < 2; dir++ {
+		from, to, label := ra.Cid(), rb.Cid(), "a->b"
+		if dir == 1 {
+			from, to, label = rb.Cid(), ra.Cid(), "b->a"
+		}
+		healthy := bl.service(ctx)
+		fn, err := healthy.Get(ctx, from)
+		if err != nil {
+			panic(err)
+		}
+		tnode, err := healthy.Get(ctx, to)
+		if err != nil {
+			panic(err)
+		}
+		fd := &faultyDAG{DAGService: healthy, bad: bad}
+		changes, err := dagutils.Diff(ctx, fd, fn, tnode)
+		k.C.Count("fault_gets_hit", int64(len(fd.hits)))
+		if err != nil {
+			if len(fd.hits) == 0 {
+				k.Fail("diff-error/"+errClass(err)+"/no-fault-reached", "Diff succeeds when every block it reads is readable", "nil", label+": "+err.Error())
+			} else {
+				k.Logf("%s Diff reported the read fault: %v (faulted Gets reached: %d)", label, err, len(fd.hits))
+				k.C.Count("fault_reported_by_diff", 1)
+			}
+			continue
+		}
+		k.Logf("%s Diff (faulted Gets reached: %d) = %s", label, len(fd.hits), fmtChanges(changes))
+		// nil error: the list must be complete. Apply it on a healthy store.
+		fresh := bl.service(ctx)
+		src, err := fresh.Get(ctx, from)
+		if err != nil {
+			panic(err)
+		}
+		res, err := dagutils.ApplyChange(ctx, fresh, src.(*mdag.ProtoNode), changes)
+		cls := "apply-after-fault-free-diff"
+		if len(fd.hits) > 0 {
+			cls = "diff-error-swallowed"
+		}
+		switch {
+		case err != nil:
+			k.Fail(cls+"/apply-error/"+errClass(err), "Diff returned nil error, so its list applies", "nil", label+": "+err.Error())
+		case !res.Cid().Equals(to):
+			k.Fail(cls+"/partial-change-list", "Diff returns an error or a change list that reproduces b", to.String(), fmt.Sprintf("%s: nil error, %d faulted Gets reached, applying %s gives %s", label, len(fd.hits), fmtChanges(changes), res.Cid()))
+		default:
+			k.C.Count("fault_not_on_read_path_diff_complete", 1)
+		}
+	}
+	if maxDepthOnPath >= 2 {
 		k.Nontrivial()
 	}
 }
